@@ -118,7 +118,7 @@ def parse_kani(out):
             nums = [int(x) for x in vm.group(1).replace(" ", "").split(",") if x != ""]
             vals.append(nums)
         r["playbacks"].append({"kind": kind, "desc": desc.strip().strip('"'), "vals": vals})
-    r["stubs"] = sorted(set(re.findall(r"- Stub: (\S+)", out)))
+    r["stubs"] = sorted(set(re.sub(r"\s*::\s*", "::", m.strip()) for m in re.findall(r"- Stub: (.+)", out)))
     r["stats"] = {}
     m = re.search(r"(\d+) variables, (\d+) clauses", out)
     if m:
